@@ -50,22 +50,28 @@ Section Woodbury.
   Theorem direct_solves b : sysop (solve_direct b) = b.
   Proof. apply fact_d. Qed.
 
-  (** ---- accuracy:  rel_res(A^H W A x + D x, b)  with
-        rel_res(ax, b) = ||b - ax|| / max(||ax||, ||b||), 0 when both vanish.
-      [relres] is scico.metric.rel_res; [dmul] is what the code computes for "D * x". *)
+  (** ---- accuracy:  rel_res(A^H W A x + Dx, b)  with
+        Dx = D * x   (element-wise, broadcast along the columns of a matrix x) when D is
+                     stored as the vector of its diagonal entries, i.e. diag(D) x, and
+        Dx = D @ x   when D is a full 2-D matrix:
+      in both representations Dx is the action of D on x.
+      rel_res(ax, b) = ||b - ax|| / max(||ax||, ||b||), 0 when both vanish: [relres] is
+      scico.metric.rel_res (Section variable).
+      (Before scico commit 25e555b the 2-D branch also used D * x; the refuted statement lived
+      in Findings/C14_accuracy_fullD.v.) *)
   Variable S : Type.
   Variable relres : X -> X -> S.
-  Variable dmul : X -> X.
-  Definition accuracy (x b : X) : S := relres (xadd (AH (W (A x))) (dmul x)) b.
+  Definition accuracy (x b : X) : S := relres (xadd (AH (W (A x))) (D x)) b.
 
-  (** if "D * x" is the product with D, accuracy is the relative residual of the system *)
-  Theorem accuracy_is_system_residual :
-    (forall x, dmul x = D x) -> forall x b, accuracy x b = relres (sysop x) b.
-  Proof. intros Hd x b. unfold accuracy, sysop. rewrite Hd. reflexivity. Qed.
+  (** accuracy is the relative residual of (A^H W A + D) x = b, for 1-D and 2-D D *)
+  Theorem accuracy_is_system_residual x b : accuracy x b = relres (sysop x) b.
+  Proof. reflexivity. Qed.
 
-  Corollary accuracy_of_solution :
-    (forall x, dmul x = D x) -> forall b, accuracy (solve_woodbury b) b = relres b b.
-  Proof. intros Hd b. rewrite accuracy_is_system_residual by exact Hd. rewrite woodbury_solves. reflexivity. Qed.
+  (** and on the value returned by solve (both paths) it is rel_res(b, b) *)
+  Corollary accuracy_of_woodbury_solution b : accuracy (solve_woodbury b) b = relres b b.
+  Proof. rewrite accuracy_is_system_residual, woodbury_solves. reflexivity. Qed.
+  Corollary accuracy_of_direct_solution b : accuracy (solve_direct b) b = relres b b.
+  Proof. rewrite accuracy_is_system_residual, direct_solves. reflexivity. Qed.
 End Woodbury.
 
 (** ConvATADSolver: in the DFT domain (Ahat, Dhat diagonal per frequency) the code computes
